@@ -23,6 +23,12 @@
 (* it - e.g. the main loop was held by back-pressure), an update is        *)
 (* parked, the connection ends.  Does the handler return?                  *)
 (*                                                                         *)
+(* Found with this model (TLC deadlock, Flush = "queue", DiscDrain = FALSE) *)
+(* and reproduced on the real server: D11.  Repaired for a connection that *)
+(* ends (DiscDrain = TRUE).  With Switches = TRUE the model still has the   *)
+(* same deadlock on the switch path; that one has not been reproduced on   *)
+(* the real server and is recorded as a lead only.                         *)
+(*                                                                         *)
 (* `Flush` selects the design of the frame handler:                        *)
 (*   "queue"   the code: parked updates go through the bounded queue       *)
 (*   "direct"  a design in which the frame handler only marks the parked   *)
@@ -33,7 +39,11 @@ EXTENDS Integers, Sequences, TLC
 
 CONSTANTS Q,        \* capacity of the scheduler queue (256 in the code)
           N,        \* messages the client still sends
-          Flush     \* "queue" | "direct"
+          Flush,    \* "queue" | "direct"
+          DiscDrain, \* BOOLEAN: while HandleDisconnect runs, a helper keeps consuming the queue (the repaired code); FALSE:
+                    \* nobody does (the code before the repair of D11)
+          Switches  \* BOOLEAN: the client may also ask to switch session ("sw": the handler leaves the old session - same
+                    \* cancel func, same wait for the frame lock - INSIDE handleMessage, where nothing can be discarded)
 
 VARIABLES q,        \* scheduler queue: sequence of "n" (ordinary request), "u" (flushed update), "bad" (its handler fails)
           parked,   \* number of parked updates (0..2: the maps coalesce per entity / component)
@@ -56,7 +66,7 @@ vars == <<q, parked, due, smx, fpc, reg, mpc, cur, rpc, pend, dch, ctx, sock, le
 Init == /\ q = <<>> /\ parked = 0 /\ due = 0 /\ smx = "none" /\ fpc = "sleep" /\ reg = TRUE /\ mpc = "loop" /\ cur = ""
         /\ rpc = "read" /\ pend = "" /\ dch = FALSE /\ ctx = "live" /\ sock = "open" /\ left = N
 
-WriterWaiting == mpc = "unreg"
+WriterWaiting == mpc \in {"unreg", "unregS"}
 Park == IF parked < 2 THEN parked + 1 ELSE parked
 
 (* client + receiver goroutine *)
@@ -95,8 +105,16 @@ M_Pop   == /\ mpc = "loop" /\ ctx = "live" /\ q # <<>> /\ cur' = Head(q) /\ q' =
 M_Due   == /\ mpc = "loop" /\ ctx = "live" /\ due > 0 /\ parked > 0     \* ("direct") takes a due update from where it is parked
            /\ smx = "none" /\ due' = due - 1 /\ parked' = parked - 1 /\ cur' = "u" /\ mpc' = "handling"
            /\ UNCHANGED <<q, smx, fpc, reg, rpc, pend, dch, ctx, sock, left>>
-M_Fin   == /\ mpc = "handling" /\ mpc' = "loop" /\ cur' = "" /\ dch' = (dch \/ cur = "bad")
+M_Fin   == /\ mpc = "handling" /\ cur # "sw" /\ mpc' = "loop" /\ cur' = "" /\ dch' = (dch \/ cur = "bad")
            /\ UNCHANGED <<q, parked, due, smx, fpc, reg, rpc, pend, ctx, sock, left>>
+\* a switch: leaveSession inside the handler (cancel func = frame write lock), then the new session's registration
+M_SwLeave == /\ mpc = "handling" /\ cur = "sw" /\ mpc' = "unregS"
+             /\ UNCHANGED <<q, parked, due, smx, fpc, reg, cur, rpc, pend, dch, ctx, sock, left>>
+M_SwDone  == /\ mpc = "unregS" /\ fpc = "sleep" /\ mpc' = "loop" /\ cur' = ""        \* lock granted; registered again at once
+             /\ UNCHANGED <<q, parked, due, smx, fpc, reg, rpc, pend, dch, ctx, sock, left>>
+\* (repaired code) while the connection's HandleDisconnect waits for the frame lock a helper consumes the queue
+M_DiscDrain == /\ DiscDrain /\ mpc = "unreg" /\ q # <<>> /\ q' = Tail(q)
+               /\ UNCHANGED <<parked, due, smx, fpc, reg, mpc, cur, rpc, pend, dch, ctx, sock, left>>
 M_Disc  == /\ mpc = "loop" /\ ctx = "live" /\ dch /\ dch' = FALSE /\ sock' = "closed" /\ mpc' = "unreg"   \* handleDisconnect .. leaveSession
            /\ UNCHANGED <<q, parked, due, smx, fpc, reg, cur, rpc, pend, ctx, left>>
 M_Unreg == /\ mpc = "unreg" /\ fpc = "sleep" /\ reg' = FALSE /\ mpc' = "cancel"                       \* frameMutex.Lock granted
@@ -108,15 +126,18 @@ M_Drain == /\ mpc = "wait" /\ q # <<>> /\ q' = <<>>                             
 M_Done  == /\ mpc = "wait" /\ rpc = "exit" /\ mpc' = "done"
            /\ UNCHANGED <<q, parked, due, smx, fpc, reg, cur, rpc, pend, dch, ctx, sock, left>>
 
-Next == (\E k \in {"n", "u", "bad"} : R_Read(k)) \/ R_Unblock \/ R_Park \/ R_Closed \/ C_Close
-        \/ F_Tick \/ F_Call \/ F_Push \/ M_Pop \/ M_Due \/ M_Fin \/ M_Disc \/ M_Unreg \/ M_Cancel \/ M_Drain \/ M_Done
+Kinds == {"n", "u", "bad"} \cup (IF Switches THEN {"sw"} ELSE {})
+Next == (\E k \in Kinds : R_Read(k)) \/ R_Unblock \/ R_Park \/ R_Closed \/ C_Close
+        \/ F_Tick \/ F_Call \/ F_Push \/ M_Pop \/ M_Due \/ M_Fin \/ M_SwLeave \/ M_SwDone \/ M_DiscDrain \/ M_Disc \/ M_Unreg \/ M_Cancel \/ M_Drain \/ M_Done
         \/ (mpc = "done" /\ UNCHANGED vars)
 
-MainSteps  == M_Pop \/ M_Due \/ M_Fin \/ M_Disc \/ M_Unreg \/ M_Cancel \/ M_Drain \/ M_Done
+MainSteps  == M_Pop \/ M_Due \/ M_Fin \/ M_SwLeave \/ M_SwDone \/ M_DiscDrain \/ M_Disc \/ M_Unreg \/ M_Cancel \/ M_Drain \/ M_Done
 RecvSteps  == R_Unblock \/ R_Park \/ R_Closed
 FrameSteps == F_Call \/ F_Push
 \* every goroutine that can move does; the client goes away in the end
-Spec == Init /\ [][Next]_vars /\ WF_vars(MainSteps) /\ WF_vars(RecvSteps) /\ WF_vars(FrameSteps) /\ WF_vars(C_Close)
+\* (strong fairness for the two goroutines that wait for a mutex or a channel slot others also take: Go's mutex does
+\* not starve a waiter and a channel serves blocked senders in order)
+Spec == Init /\ [][Next]_vars /\ WF_vars(MainSteps) /\ SF_vars(RecvSteps) /\ SF_vars(FrameSteps) /\ WF_vars(C_Close)
 
 TypeOK == Len(q) <= Q /\ parked \in 0..2 /\ left \in 0..N
 \* the frame worker never calls the handler of a member that has left (what makes closing the queue safe)
@@ -124,6 +145,6 @@ NoCallAfterCancel == fpc = "push" => reg
 \* the client goes away in the end: the handler returns - and TLC's deadlock check: nobody is left stuck
 HandlerReturns == <>(mpc = "done")
 \* shortest schedule to the wedge of the code's design, for the replay on the real server
-Wedged == mpc = "unreg" /\ fpc = "push" /\ parked > 0 /\ Len(q) = Q
+Wedged == mpc \in {"unreg", "unregS"} /\ fpc = "push" /\ parked > 0 /\ Len(q) = Q
 NotWedged == ~Wedged
 =============================================================================
